@@ -497,6 +497,17 @@ def run_prop(ctx, props_file, assume, known_match, witness_replay, rule, own_pur
             ctx.known(e, detail + ("; %d matching observations in this run" % len(matched[e["id"]]) if matched[e["id"]] else ""))
         else:
             ctx.broken.append("known finding %s no longer reproduces on the implementation while the faithful model still has it" % e["id"])
+    # ---- fixed findings recorded by an extension: the witness is replayed as a regression (a fixed entry suppresses nothing)
+    from lib.vf import load_known
+    regress = []
+    for e in load_known(prop):
+        ext = ext_of(e)
+        if e.get("status") == "fixed" and ext is not None and hasattr(ext, "witness_replay"):
+            still, detail = ext.witness_replay(e)
+            regress.append({"id": e["id"], "still_failing": still, "detail": detail})
+            if still:
+                ctx.violation("impl-counterexample", "the repaired defect %s has returned: %s" % (e["id"], detail), input=e.get("witness"))
+    ctx.cov["fixed_findings_replayed"] = regress
     # ---- verdict
     if unmatched:
         seen = set()
